@@ -17,5 +17,16 @@ PROPS = {
         'outside': 'the LALRPOP parser driver / lexer (which production fires for which text) is validated by native '
                    'runs of the real parser on rendered instructions, not by the solver',
         'assumptions': [],
+        'level_text': 'bounded model checking with no bound needed (loop-free): CBMC decides every labelled obligation '
+                      '(result, each of the six flags, other flag bits, registers, a symbolic memory probe cell) for all '
+                      'operand values, flag words, registers and memory contents; stronger than sampling because the '
+                      'failing inputs are isolated carry/borrow boundary points',
+        'level_note': 'trusted: Kani/CBMC/solver soundness, hand-written oracle from the Intel manual; the parser driver '
+                      '(text -> production) is validated natively, not by the solver; INC/DEC CF and NEG(0) SF are known findings',
     },
+}
+
+NOT_APPLICABLE = {
+    'C13': 'macro definition/use is regex::Regex + a recursive call of the generated parser on heap strings; Kani cannot compile the regex engine or the LALRPOP driver (compiler ICE), and a hand model of the substitution would not be the real code',
+    'C20': 'stepping, breakpoints and the prompt exist only inside CMDDriver::run()/user_interface() around stdin and the generated PrintParser; no unit smaller than the whole CLI process can be encoded',
 }
